@@ -254,3 +254,18 @@ CLAIMS["C04"]["text"] += (" The swarm pairs also generate a fault that closes th
 CLAIMS["C07"]["text"] += (" Every open additionally draws the application's first operation on the fresh stream (Write, empty Write, Read with the handler speaking first, empty Read, CloseWrite with nothing sent, Close at once, Write+CloseWrite) on eager and on lazily negotiated "
     "(known, stale, over-optimistic knowledge) streams; a stream bound to an accepted protocol must reach exactly one right handler and the bytes (or 'nothing, then EOF') must arrive there whatever the first operation is; the small domain of 12 handler configs x 4 requests x 5 knowledge states x 4 host pairings x 7 first operations is enumerated exhaustively.")
 CLAIMS["C07"]["note"] += (" Handlers greet before reading and hold their stream until the per-side resource-scope audit is done; for a stream closed at once only the listener side is checked; Reset, CloseRead and never-used streams are not generated as first operations (statement silent).")
+
+CLAIMS["C01"]["text"] += (" Short session histories inside one verifying process are checked as well: after 1-3 honest Noise/TLS sessions of a verifier with the victim and others, in both roles, an attacker re-presents the certificate / libp2p extension / Noise payload "
+    "actually observed from those peers under a key of its own (whole, re-wrapped, or mixed field by field); the verifier never completes, or completes only as the attacker's real identity. The QUIC transport's own Dial is driven over simulated UDP in all three roles, "
+    "including the hole-punch server role with another peer connecting from exactly the punched ip:port, and never returns a connection whose RemotePeer/RemotePublicKey is not P's.")
+CLAIMS["C01"]["note"] += (" Histories are at most 3 sessions (caches whose misbehaviour needs eviction or more entries are out of reach); QUIC is covered for the dial-identity clause only, without wire edits. A frame cut short without length fix is judged by the byte stream the receiver consumed.")
+CLAIMS["C16"]["text"] += (" TestPeerConcurrency builds, by construction, episodes of 3-9 concurrent and mostly long-lived requests of one peer against a concurrency limit of 1-4 combined with a second exhausted limit (dial-data / per-peer / global window), "
+    "so that requests of a peer are rejected at every limiter stage - including the dial-data window, after admission - while others of its requests are in flight and more follow.")
+CLAIMS["C19"]["text"] += (" Server side covers 2-4 server instances per case whose secrets are application-provided (own, or one key shared by replicas) or left unset (each instance must draw its own), incl. instances sharing a private key: tokens and challenge opaques "
+    "minted by one instance are presented to every other instance under the same and the other hostname, and tokens/challenges forged offline under guessable secrets (no key, zeros, hostname, server public key / peer ID, another instance's key) naming arbitrary peer IDs must never reach the application.")
+CLAIMS["C19"]["note"] += (" Instances given the same HmacKey by the application are treated as one server (acceptance across them allowed, not required); the harness never learns a self-drawn secret, so it cannot forge under it.")
+CLAIMS["C17"]["text"] += (" Listen sets are generated per local IP as arbitrary subsets of tcp/ws/tls+ws/tls+sni+ws on one TCP port and QUIC/WebTransport/WebRTC-direct on one UDP port (shared thin waist, rests that are prefixes of each other or differ at an overlapping position); "
+    "the listen addresses are asked in generated orders and repeatedly, every answer must be the observed thin waist followed by exactly the asked listen address's own rest whatever was asked before, and answers already handed to the caller must keep their value "
+    "(a deterministic sweep enumerates every >=2-member same-port listen set x reporting member x asking order).")
+CLAIMS["C07"]["text"] += (" Streams are also opened in both directions between the same two hosts (asymmetric handler sets, handler changes and identify pushes on either side, delivered or still in flight) with the opener's protocol knowledge produced by the library alone: "
+    "a stream bound to a protocol the remote never served or announced must not be handed out when a requested protocol is common, and no handler may run on the opener (random history search plus a complete enumeration over two protocol IDs).")
